@@ -76,6 +76,7 @@ def run_check(tier, seed):
     cases = [c for c in S.gen_cases(rng, n, frac_malformed=0.0, cap=1 << 17, remap=(0, 0)) if c['wf'] and c['wf']['op'] != 26]
     cases += [c for c in S.gen_config_cases(rng, len(cases) + 100000) if c['wf']['op'] != 26 and c['remap'] == (0, 0)]
     cases += [c for c in S.gen_virtio_seg_cases(rng, len(cases) + 200000)]
+    cases += S.gen_direrr_cases(rng, len(cases) + 300000)
     # directory sweep: every requested size within 8 bytes of every entry boundary (padded and unpadded), plain and plus
     sweep = []
     for op in (28, 44):
